@@ -24,6 +24,8 @@ def obligations(tier):
            [F['dl']], module=H, func='k2_bad_download', timeout=600),
         Ob('K3', 'S', 'any proper prefix of the content as cache entry (interrupted write) is transparent', 'symbolic cut position over 72 bytes',
            [F['dl']], module=H, func='k3_prefix', timeout=600),
+        Ob('K5', 'S', 'invalid cache entry (symbolic bytes) AND a stored object that is not the snapshot (symbolic bytes or another valid snapshot body): _download_snapshot_threadsafe raises, it never returns unverified content',
+           'cache entry <= 2 bytes, stored object <= 2 bytes or a fixed other body', [F['dl']], module=H, func='k5_invalid_cache_wrong_remote', timeout=600),
         Ob('K4', 'E', 'two or three clients storing the same snapshot into a shared cache directory under every interleaving of the statements of _store_cached, while another client deletes its own entry of the same prefix directory (real _delete_cached) after 0..6 steps or never: no error, entry intact, nothing left behind',
            '2 x 3^6 schedule prefixes x 8 delete positions = 11664', ['replicat.repository:Repository._store_cached'], module=H, func='k4_store_race', timeout=600, shards=4),
         Ob('E.cache', 'E', 'cached vs cache-less client: same outputs of list_snapshots/list_files/restore, and same report and same objects in the store after snapshot, delete, clean, list/delete/download-objects and an upload-objects --skip-existing mirror into another (empty) repository with the same cache directory, for A, B(shared), C(independent)',
